@@ -429,6 +429,7 @@ class GenOpts:
         self.max_wrap = 3
         self.p_args = 0.35
         self.p_mutation = 0.3
+        self.p_shared_root = 0.0       # probability that query and mutation share one root object type
         self.p_subscription = 0.0
         self.p_explicit = 0.55
         self.p_nonnull = 0.3
@@ -611,8 +612,13 @@ def gen_schema(rng, opts=None):
         q.fields[f.name] = f
     if rng.random() < o.p_mutation:
         s.mutation = "Mutation" if rng.random() > o.rename_roots else pick_unique(rng, ["RootMutation", "M"], used, "Rm")
-        m = s.add(ObjectT(s.mutation, {}))
-        fu = set()
+        if o.p_shared_root and rng.random() < o.p_shared_root:
+            # `schema { query: R mutation: R }`: one object type serves both operations (accepted by the engine);
+            # what makes an operation a mutation is the operation keyword, not the type it starts from
+            s.mutation, m = s.query, q
+        else:
+            m = s.add(ObjectT(s.mutation, {}))
+            fu = set()
         for _ in range(ri(2, 5)):
             f = gen_field(fu, 0.4)
             m.fields[f.name] = f
